@@ -14,3 +14,6 @@ def run(rep: Report, repo: Repo, tier: str) -> None:
     rep.floor("C17-R1", 8, "content sinks")
     fsrules.rule_no_nondeterminism(rep, repo, "C17-R2")
     fsrules.rule_isolation(rep, repo, "C17-R3")
+    fsrules.rule_no_set_order(rep, repo, "C17-R4")
+    fsrules.rule_no_location_as_pattern(rep, repo, "C17-R5")
+    fsrules.rule_walk_root_absolute(rep, repo, "C17-R6")
